@@ -157,178 +157,78 @@ def _inside_log(expr, sym):
 
 
 def r_loop(ctx, model):
-    ref = f"{MG}:interpolate_modes"
-    f = model.func(ref)
-    ctx.fn(ref)
-    w = model.where(ref, f)
-    roles, n_calls = interpolate_modes_roles(model)
-    ctx.check(roles == [0, 1, 2], "returns (omega, gamma, V dgamma/dV) in helper order", w, expected="[0, 1, 2]", found=str(roles),
-              explanation="interpolate_modes returns its three arrays in an order different from the one its helpers fill", key="loop.return")
-    # loops: for j in range(nq): for k in range(np)
-    fors = [n for n in ast.walk(f) if isinstance(n, ast.For)]
-    outer = [n for n in fors if any(isinstance(c, ast.For) for c in ast.walk(n) if c is not n)]
-    if len(outer) != 1:
-        raise AnalysisError("interpolate_modes: expected one nested loop pair")
-    lo = outer[0]
-    li = next(c for c in ast.walk(lo) if isinstance(c, ast.For) and c is not lo)
-    jq, km = src(lo.target), src(li.target)
-    dom = (src(lo.iter), src(li.iter))
-    env_names = {}
-    for st in body_wo_doc(f):
-        if isinstance(st, ast.Assign) and isinstance(st.targets[0], ast.Name):
-            env_names[st.targets[0].id] = src(st.value)
-    qi = f.args.args[0].arg
-
-    def range_arg(it):
-        if isinstance(it, ast.Call) and dotted_name(it.func) == "range" and len(it.args) == 1:
-            a0 = src(it.args[0])
-            return env_names.get(a0, a0)
-        raise AnalysisError(f"unrecognised loop domain {src(it)}")
-
-    d0, d1 = range_arg(lo.iter), range_arg(li.iter)
-    ctx.check((d0, d1) == (f"{qi}.nq", f"{qi}.np"), "loops run over all nq q-points and np modes", model.where(ref, lo),
-              expected=f"for j in range({qi}.nq): for k in range({qi}.np)", found=f"range({d0}) / range({d1})",
-              explanation="the loops do not cover every (q, mode) index", key="loop.domain")
-    # frequency read and the three writes use the same (j, k)
-    reads = []
-    for nn in ast.walk(li):
-        if (isinstance(nn, ast.Subscript) and isinstance(nn.value, ast.Attribute) and nn.value.attr == "modes"
-                and isinstance(nn.value.value, ast.Subscript) and isinstance(nn.value.value.value, ast.Attribute)
-                and nn.value.value.value.attr == "q_points"):
-            reads.append((src(nn.value.value.slice), src(nn.slice)))
-    if not reads:
-        raise AnalysisError("interpolate_modes: read of q_points[..].modes[..] not found")
-    ctx.check(all(r == (jq, km) for r in reads), "frequencies read at q_points[j].modes[k]", model.where(ref, li), expected=f"q_points[{jq}].modes[{km}]",
-              found=str(reads), explanation="the frequencies handed to the helper are not those of q-point j, mode k", key="loop.read")
-    bad = []
-    n = 0
-    for st in ast.walk(li):
-        if isinstance(st, ast.Assign) and isinstance(st.targets[0], ast.Tuple) and isinstance(st.value, ast.Call) \
-                and (dotted_name(st.value.func) or "").startswith("interpolate_mode_"):
-            n += 1
-            for e in st.targets[0].elts:
-                sl = e.slice if isinstance(e, ast.Subscript) else None
-                if not (isinstance(sl, ast.Tuple) and len(sl.elts) == 3 and isinstance(sl.elts[0], ast.Slice)
-                        and sl.elts[0].lower is None and sl.elts[0].upper is None and sl.elts[0].step is None):
-                    raise AnalysisError(f"unrecognised output index {src(e)}")
-                if [src(x) for x in sl.elts[1:]] != [jq, km]:
-                    bad.append(f"{src(e)}")
-            # arguments: (mode_volumes, mode_freqs, v_array, ...)
-            a = st.value.args
-            if len(a) < 3 or [src(x) for x in a[:3]] != ["mode_volumes", "mode_freqs", f.args.args[1].arg]:
-                bad.append(f"arguments {[src(x) for x in a[:3]]}")
-            kw = {k.arg: src(k.value) for k in st.value.keywords}
-            if kw.get("order") != "order":
-                bad.append(f"order={kw.get('order')}")
-    ctx.check(not bad and n >= 5, "all three outputs written at [:, j, k]; helpers receive (volumes, freqs, v_array, order)", model.where(ref, li),
-              expected="X[:, j, k] for the three arrays", found="; ".join(bad[:4]) or f"{n} dispatch branches as required",
-              explanation="q-points or modes are mixed: an output is written at another index than the one read", key="loop.write")
-    # skip condition
-    skips = [n for n in li.body if isinstance(n, ast.If) and len(n.body) == 1 and isinstance(n.body[0], ast.Continue)]
-    okskip = len(skips) == 1 and skip_is_gamma_acoustic(skips[0].test, jq, km)
-    ctx.check(okskip, "skips exactly the three acoustic modes at the first q-point", model.where(ref, li), expected=f"if {jq} == 0 and {km} in range(3): continue",
-              found=src(skips[0].test) if skips else "no skip", explanation="Gamma-point acoustic modes are not left at zero, or other modes are skipped", key="loop.skip")
-    # zero initialisation with shape (ntv, nq, np)
-    zs = {}
-    for st in body_wo_doc(f):
-        if isinstance(st, ast.Assign) and isinstance(st.targets[0], ast.Name) and isinstance(st.value, ast.Call) \
-                and dotted_name(st.value.func) == "numpy.zeros":
-            zs[st.targets[0].id] = src(st.value.args[0])
-    rets = [s for s in ast.walk(f) if isinstance(s, ast.Return)]
-    names = [src(e) for e in rets[0].value.elts]
-    va = f.args.args[1].arg
-
-    def shape_of(text):
-        t = ast.parse(text, mode="eval").body
-        if not isinstance(t, ast.Tuple):
-            return None
-        return tuple(env_names.get(src(e), src(e)) for e in t.elts)
-
-    want_shape = (f"{va}.shape[0]", f"{qi}.nq", f"{qi}.np")
-    if not all(nm in zs for nm in names):
-        raise AnalysisError(f"interpolate_modes: output arrays {names} are not all created by numpy.zeros")
-    ctx.check(all(shape_of(zs[nm]) == want_shape for nm in names), "outputs start as zeros of shape (ntv, nq, np)", w, expected=str(want_shape),
-              found=str({nm: shape_of(zs[nm]) for nm in names}), explanation="an output array does not start from zeros of the grid shape", key="loop.zeros")
-    # mode_volumes from volume.volume in file order
-    mvn = None
-    for st in body_wo_doc(f):
-        if isinstance(st, ast.Assign) and isinstance(st.targets[0], ast.Name) and st.targets[0].id == "mode_volumes":
-            mvn = st.value
-    comp = mvn.args[0] if isinstance(mvn, ast.Call) and mvn.args else mvn
-    if not (isinstance(comp, (ast.ListComp, ast.GeneratorExp)) and len(comp.generators) == 1):
-        raise AnalysisError("interpolate_modes: construction of mode_volumes not recognised")
-    g = comp.generators[0]
-    ctx.check(src(g.iter) == f"{qi}.volumes" and not g.ifs and src(comp.elt) == f"{src(g.target)}.volume", "node volumes are the input volumes in file order", w,
-              expected=f"[v.volume for v in {qi}.volumes]", found=src(comp)[:120], explanation="node volumes are not the input volumes in file order",
-              key="loop.volumes")
-
-
-def skip_is_gamma_acoustic(test, jq, km):
-    if not (isinstance(test, ast.BoolOp) and isinstance(test.op, ast.And) and len(test.values) == 2):
-        return False
-    parts = {src(v).replace(" ", "") for v in test.values}
-    okq = f"{jq}==0" in parts
-    okm = bool(parts & {f"{km}inrange(3)", f"{km}<3", f"{km}in(0,1,2)", f"{km}in[0,1,2]", f"{km}<=2"})
-    return okq and okm
-
-
-def dispatch_methods(model):
-    """methods that interpolate_modes dispatches to a helper, and the helper each goes to"""
-    f = model.func(f"{MG}:interpolate_modes")
-    out = {}
-    mparam = "method"
-    for n in ast.walk(f):
-        if isinstance(n, ast.If) and isinstance(n.test, ast.Compare) and isinstance(n.test.left, ast.Name) and n.test.left.id == mparam:
-            vals = []
-            c = n.test.comparators[0]
-            if isinstance(n.test.ops[0], ast.Eq) and isinstance(c, ast.Constant):
-                vals = [c.value]
-            elif isinstance(n.test.ops[0], ast.In) and isinstance(c, (ast.List, ast.Tuple, ast.Set)):
-                vals = [e.value for e in c.elts if isinstance(e, ast.Constant)]
-            callee = [dotted_name(x.func) for s in n.body for x in ast.walk(s) if isinstance(x, ast.Call)
-                      and (dotted_name(x.func) or "").startswith("interpolate_mode_")]
-            for v in vals:
-                out[v] = callee[0] if callee else None
-    return out
-
-
-def inner_ppoly_methods(model):
-    f = model.func(f"{MG}:interpolate_mode_ppoly")
-    out = {}
-    for n in ast.walk(f):
-        if isinstance(n, ast.If) and isinstance(n.test, ast.Compare) and isinstance(n.test.left, ast.Name) and n.test.left.id == "method" \
-                and isinstance(n.test.ops[0], ast.Eq) and isinstance(n.test.comparators[0], ast.Constant):
-            out[n.test.comparators[0].value] = True
-    return out
-
-
-def r_dispatch(ctx, model):
+    """interpolate_modes folded for every schema-valid method on a 2 q-point x 4 mode table: every non-acoustic (q, m) cell of the
+    three outputs is the matching element of the helper applied to the frequencies of that very (q, m); Gamma acoustic cells stay 0"""
+    from ..facts import fold_interpolate_modes
+    from ..sym import ArrV
     schema = json.loads((REPO / "cij" / "data" / "schema" / "config.schema.json").read_text())
     try:
         enum = schema["definitions"]["elast_settings"]["properties"]["mode_gamma"]["properties"]["interpolator"]["enum"]
     except KeyError:
         raise AnalysisError("schema: mode_gamma.interpolator.enum not found")
-    disp = dispatch_methods(model)
-    inner = inner_ppoly_methods(model)
-    w = model.where(f"{MG}:interpolate_modes")
-    missing = [m for m in enum if m not in disp or disp[m] is None]
-    ctx.check(not missing, "every schema-valid interpolator is dispatched (an unhandled name silently returns zeros)", w,
-              expected=str(sorted(enum)), found=f"dispatched {sorted(disp)}; missing {missing}",
-              explanation="a documented, schema-valid interpolator name is not handled by interpolate_modes: all frequencies stay 0",
-              key="dispatch.exhaustive")
-    pp = [m for m, h in disp.items() if h == "interpolate_mode_ppoly"]
-    ctx.check(sorted(pp) == sorted(inner), "names sent to interpolate_mode_ppoly = names it selects a class for", model.where(f"{MG}:interpolate_mode_ppoly"),
-              expected=str(sorted(pp)), found=str(sorted(inner)), explanation="a method name reaches interpolate_mode_ppoly without a class "
-                                                                           "being selected for it (UnboundLocalError)", key="dispatch.ppoly")
-    wrong = [m for m, h in disp.items() if m in HELPERS and h != HELPERS[m]]
-    ctx.check(not wrong, "each method name goes to its own helper", w, expected=str(HELPERS), found=str({m: disp[m] for m in wrong}),
-              explanation="a method name is routed to another method's helper", key="dispatch.routing")
-    # default settings use a dispatched method
+    ref = f"{MG}:interpolate_modes"
+    f = model.func(ref)
+    w = model.where(ref, f)
+    from ..sym import DataDependentBranch
+    try:
+        roles, _ = interpolate_modes_roles(model)
+    except DataDependentBranch as e:
+        ctx.violation("loop.data-dependent", w, "which modes are interpolated depends on their (q, mode) position only",
+                      f"{e.reason} at {e.where}", "whether a mode is interpolated (or left at zero) depends on the tabulated frequencies, not on its "
+                      "position: Gamma acoustic modes are not reliably left at zero / other modes may be skipped", instance="spline: folded")
+        return
+    ctx.check(roles == [0, 1, 2], "returns (omega, gamma, V dgamma/dV) in helper order", w, expected="[0, 1, 2]", found=str(roles),
+              explanation="interpolate_modes returns its three arrays in an order different from the one its helpers fill", key="loop.return")
+    for method in enum:
+        from ..sym import DataDependentBranch
+        try:
+            out, calls, (MVs, VAs, ORDs) = fold_interpolate_modes(model, method, ctx=ctx)
+        except DataDependentBranch as e:
+            ctx.violation(f"loop.{method}.data-dependent", w, "which modes are interpolated depends on their (q, mode) position only",
+                          f"{e.reason} at {e.where}", f"method {method!r}: whether a mode is interpolated (or left at zero) depends on the tabulated "
+                          f"frequencies, not on its position: Gamma acoustic modes are not reliably left at zero / other modes may be skipped",
+                          instance=f"{method}: folded")
+            continue
+        except RaisedV as e:
+            ctx.violation(f"loop.{method}.raises", w, "the method is dispatched", f"raises {e.exc_name}", f"interpolate_modes raises {e.exc_name} for the schema-valid method {method!r}",
+                          instance=f"{method}: folded")
+            continue
+        want_helper = HELPERS.get(method)
+        bad = []
+        if not (isinstance(out, Tup) and len(out.items) == 3 and all(isinstance(x, ArrV) and x.shape == (2, 4) for x in out.items)):
+            bad.append("does not return three (ntv, nq, np) arrays")
+        else:
+            for pos, arr in enumerate(out.items):
+                for j in range(2):
+                    for k in range(4):
+                        cell = sp.sympify(arr.get((j, k)))
+                        if j == 0 and k < 3:
+                            if cell != 0:
+                                bad.append(f"Gamma acoustic cell ({j},{k}) of output {pos} = {str(cell)[:60]}")
+                            continue
+                        tag = f"{want_helper}[{method}]" if want_helper == "interpolate_mode_ppoly" else want_helper
+                        want = sp.Function(f"OUT{roles[pos]}_{tag}")(MVs, sp.Symbol(f"FR_{j}_{k}", positive=True), VAs, ORDs)
+                        if cell != want:
+                            bad.append(f"output {pos} at (q={j}, m={k}) = {str(cell)[:90]}")
+        ctx.check(not bad, f"{method}: every non-acoustic (q, m) cell = its own helper result; Gamma acoustic cells stay 0", w,
+                  expected=f"X[:, j, k] = {want_helper}(mode_volumes, freqs[j][k], v_array, order) element-wise by role; X[:, 0, 0:3] = 0",
+                  found="; ".join(bad[:3]) or "as required",
+                  explanation=f"method {method!r}: an output cell is left at zero (name not dispatched), filled from another (q, m), from another "
+                              f"helper, or a Gamma acoustic mode is interpolated", key=f"loop.{method}")
+    ctx.floor("schema-valid interpolation methods folded", len(enum), 5)
+
+
+def r_dispatch(ctx, model):
     import yaml
+    from ..facts import fold_interpolate_modes
+    w = model.where(f"{MG}:interpolate_modes")
     dflt = yaml.safe_load((REPO / "cij" / "data" / "default" / "settings.yaml").read_text())
     dm = dflt["elast"]["settings"]["mode_gamma"]["interpolator"]
-    ctx.check(dm in disp, "default interpolator is dispatched", Where("cij/data/default/settings.yaml", "mode_gamma.interpolator", 0),
-              expected=f"one of {sorted(disp)}", found=dm, explanation="the packaged default names an interpolator that is not handled", key="dispatch.default")
+    out, calls, _ = fold_interpolate_modes(model, dm, ctx=ctx)
+    ctx.check(len(calls) == 5, "default interpolator is dispatched", Where("cij/data/default/settings.yaml", "mode_gamma.interpolator", 0),
+              expected="5 helper calls on the 2 x 4 table", found=f"{dm}: {len(calls)} helper calls", explanation="the packaged default names an interpolator that is not handled",
+              key="dispatch.default")
+    # names sent to interpolate_mode_ppoly = names it selects a class for (else UnboundLocalError): decided by folding it (R11.1-3 / R11.8)
     # consumer passes (qha_input, v_array, configured interpolator, configured order)
     seeds, intr, calc = physics_seeds(model)
     cap = {}
@@ -343,7 +243,7 @@ def r_dispatch(ctx, model):
     ev.call_def(cf, model.mods["cij.core.calculator"], f"{CALC}._interpolate_modes", [calc], {})
     from ..facts import V
     a, k = cap.get("a", []), cap.get("k", {})
-    names_, _ = [x.arg for x in model.func(f"{MG}:interpolate_modes").args.args], None
+    names_ = [x.arg for x in model.func(f"{MG}:interpolate_modes").args.args]
     b = dict(zip(names_, a))
     b.update(k)
     norm = lambda o: getattr(o, "name", str(o)).replace('"', "'")
@@ -409,7 +309,7 @@ RULE_TEXT = {
 }
 RULES = [
     ("R11.1-3", RULE_TEXT["R11.1-3"], r_helpers),
-    ("R11.4", "interpolate_modes: index agreement, Gamma skip, zero init, return order", r_loop),
-    ("R11.5-6", "dispatch covers the schema enum; routing; consumer wiring", r_dispatch),
+    ("R11.4-5", "interpolate_modes folded for every schema-valid method: (q, m) wiring, routing, Gamma skip, zero init, return order", r_loop),
+    ("R11.6", "default interpolator dispatched; consumer wiring", r_dispatch),
     ("R11.7", "plot_modes draws omega / gamma / V dgamma/dV for n = 0 / 1 / 2", r_plot),
 ]
